@@ -175,13 +175,34 @@ def mixed_args_case(rep, r: dict) -> None:
         rep.fail("falsifier", f"C12|transformed_to|float32 argument {sorted(r['args'])}|{r['beam']}|dtype",
                  f"{r['beam']}.transformed_to({sorted(r['args'])} as float32 tensors) on a float64 beam returns {va.dtype}", r)
         return
-    va, vc = va.detach().numpy(), vc.detach().numpy()
-    sc = np.abs(vc).max(axis=0) if vc.ndim == 2 else np.abs(vc) + np.abs(vc).max() * 1e-6
-    d = np.abs(va - vc)
-    if not np.all(d <= 1e-13 * (sc + 1e-300)):
+    # what the float32 arguments determine may carry float32 round-off (a function of a float32 number); everything else —
+    # the planes no argument speaks about — is the beam's own float64 data and must not be touched by the argument's dtype
+    PLANE = {"mu_x": 0, "sigma_x": 0, "mu_px": 1, "sigma_px": 1, "mu_y": 2, "sigma_y": 2, "mu_py": 3, "sigma_py": 3, "sigma_tau": 4, "sigma_p": 5}
+    touched = {PLANE[k] for k in r["args"]}
+    if r["beam"] == "ParticleBeam":
+        A, C = a.particles.detach().numpy(), c.particles.detach().numpy()
+        worst = 0.0
+        for j in range(6):
+            if j in touched:
+                continue
+            sc = np.abs(C[:, j]).max() + 1e-300
+            worst = max(worst, float(np.nanmax(np.abs(A[:, j] - C[:, j])) / sc))
+    else:
+        mA, mC = a._mu.detach().numpy(), c._mu.detach().numpy()
+        cA, cC = a._cov.detach().numpy(), c._cov.detach().numpy()
+        sd = np.sqrt(np.abs(np.diag(cC))) + 1e-300
+        worst = 0.0
+        for j in range(6):
+            if j in touched:
+                continue
+            worst = max(worst, abs(mA[j] - mC[j]) / (abs(mC[j]) + sd[j]))
+            for l in range(6):
+                if l not in touched:
+                    worst = max(worst, abs(cA[j, l] - cC[j, l]) / (sd[j] * sd[l]))
+    if not worst <= 1e-13:
         rep.fail("falsifier", f"C12|transformed_to|float32 argument {sorted(r['args'])}|{r['beam']}|value",
-                 f"{r['beam']}.transformed_to({sorted(r['args'])} as float32 tensors) on a float64 beam differs from the call with the same numbers "
-                 f"as float64 tensors by {float(np.nanmax(d / (sc + 1e-300)))!r} relative (float32 round-off of the beam's own quantities)", r)
+                 f"{r['beam']}.transformed_to({sorted(r['args'])} as float32 tensors) on a float64 beam: the planes no argument speaks about differ from the "
+                 f"call with the same numbers as float64 tensors by {worst!r} relative (the beam's own float64 quantities went through float32)", r)
 
 
 def mixed_args_probe(ctx, n: int) -> None:
